@@ -75,7 +75,7 @@ def run(ctx):
             ctx.finding("len-differs-from-split", payload, "len_selfies=%r, items=%d" % (l, len(items)))
         ctx.case(s, len(items) >= 3 or "." in items, sample={"string": s[:120], "items": len(items)} if 3 <= len(items) <= 12 else None)
 
-    for i in range(5000 if quick else 80000):
+    for i in range(5000 if quick else 300000):
         judge(make(rng), "random")
     judge([], "empty")
     for i in range(150 if quick else 4000):
